@@ -10,7 +10,7 @@
    XMLLiteral, every W3C datatype rdflib converts other than string / int / boolean / anyURI / dateTime, a URI
    no declared namespace compacts (the reader then asks rdflib's compute_qname). *)
 From Coq Require Import String Ascii List Bool ZArith.
-From Prov Require Import Str Sexp Tables Nsm Values Record Rdf.
+From Prov Require Import Str Sexp Tables Nsm Values Record World Rdf.
 Import ListNotations.
 Open Scope string_scope.
 
@@ -137,6 +137,43 @@ Definition rdf_attr_back (c : actx) (m : nsm) (p : string) (t : rterm) : attr_ba
   | Done _ None => BNone
   | Fail _ e => BRaise e
   | OOD => BOod
+  end.
+
+(* ---- a whole element.  The writer: one triple per (attribute, value) pair of the record (besides the rdf:type
+   triple naming its class); the reader: every predicate/object of the subject decoded in the document's manager,
+   then bundle.new_record(class, str(subject), no formal values, the decoded pairs) *)
+Fixpoint rdf_element_triples (pairs : list (qname * value)) : option (list (string * rterm)) :=
+  match pairs with
+  | [] => Some []
+  | (a, v) :: rest =>
+      match rdf_encode v, rdf_element_triples rest with
+      | Some t, Some ts => Some ((enc_elem_pred a, t) :: ts)
+      | _, _ => None
+      end
+  end.
+
+Fixpoint rdf_decode_args (par : option nsm) (m : nsm) (ts : list (string * rterm)) : result (list (namearg * valarg)) :=
+  match ts with
+  | [] => OK []
+  | (p, t) :: rest =>
+      match rdf_decode par m t with
+      | OK va =>
+          match rdf_decode_args par m rest with
+          | OK l => OK ((dec_elem_name p, va) :: l)
+          | Raise e => Raise e
+          | OutOfDomain => OutOfDomain
+          end
+      | Raise e => Raise e
+      | OutOfDomain => OutOfDomain
+      end
+  end.
+
+Definition rdf_read_element (par : option nsm) (ft : ftable) (b : bundle) (kind : string) (subject : string)
+  (ts : list (string * rterm)) : bundle * result prec :=
+  match rdf_decode_args par (bns b) ts with
+  | OK args => new_record par ft b kind (Some (NStr subject)) args
+  | Raise e => (b, Raise e)
+  | OutOfDomain => (b, OutOfDomain)
   end.
 
 (* ---- wire format *)
